@@ -348,7 +348,7 @@ def probe_default(ctx: Ctx, cls: str, kw, rng, origin: str):
             return
     rp = dict(kind="default_probe", cls=cls, kwargs=repr(kw))
     ctx.case(("probe", cls, E.enc_def(cls, kw)) if C19_nontrivial(kw) and "list_results" not in origin else None)
-    ctx.stat(f"probe_default:{cls}")
+    ctx.stat(f"monitored(other):probe_default:{cls}")
     snap = G.snapshot(obj.input_parameters)
     # nested containers immutable (public parameters and __dict__ extras such as GNFA.final_states)
     mc = []
@@ -452,14 +452,14 @@ def history(ctx: Ctx, rng, mutable: bool, steps: int, classes: List[str], origin
                 res = ("err", e)
         ctx.case(("history", mutable, name, tuple(E.enc_def(x.cls, x.kw) if x.kw else id(x) for x in operands))
                  if len(m.obj.states) >= 2 else None)
-        ctx.stat(f"history:{'mutable' if mutable else 'default'}:{name}")
+        ctx.stat(f"monitored(other):history:{'mutable' if mutable else 'default'}:{name}")
         rp = dict(kind="history", mutable=mutable, pool=build, trace=[(n, i, dict(ar)) for n, i, ar in trace][-12:],
                   step=step, classes=classes)
         if res[0] == "err" and not M.is_documented(name, res[1]):
             # not an immutability question (C19 judges undocumented errors); the operands must
             # nevertheless be unchanged after a failed call, which is checked below
-            ctx.stat("history:undocumented_exception")
-            if ctx.stats["history:undocumented_exception"] <= 3:
+            ctx.stat("monitored(other):history:undocumented_exception")
+            if ctx.stats["monitored(other):history:undocumented_exception"] <= 3:
                 ctx.note(f"history: {name} raised {type(res[1]).__name__}: {str(res[1])[:100]} (judged by C19, not C18)")
         # 1. no effective write to any tracked container
         ch = log.changes()
@@ -467,7 +467,7 @@ def history(ctx: Ctx, rng, mutable: bool, steps: int, classes: List[str], origin
             ctx.prop_fail(f"history step {step}: {name} wrote to an operand's container: {ch[:3]} (allow_mutable={mutable})",
                           rp, None)
         if log.events and not ch:
-            ctx.stat("monitor:noop_mutator_call", len(log.events))
+            ctx.stat("monitored(other):noop_mutator_call", len(log.events))
         log.clear()
         # 2. deep snapshots unchanged: the operands after every call, every live automaton
         #    every 4th call and at the end of the history
@@ -515,7 +515,7 @@ def run(ctx: Ctx):
     for v in small_values(2):
         check_freeze(ctx, v, "exhaustive")
         n += 1
-        if n >= ctx.budget(12000, 200000):
+        if n >= ctx.budget(25000, 200000):
             break
     else:
         ctx.exhaustive("freeze_value on every Python value of nesting depth ≤2 over atoms {1,'a',None} with ≤2 members per "
